@@ -7,8 +7,27 @@ import multiprocessing
 import os
 
 
+_POISON = {"tried": False, "on": False}
+
+
+def install_poison():
+    """Install the 0xA5-filling numpy allocator (native/poisonalloc.c) in this process."""
+    if not _POISON["tried"]:
+        _POISON["tried"] = True
+        here = os.path.dirname(os.path.dirname(os.path.abspath(__file__)))
+        import sys
+        sys.path.insert(0, os.path.join(here, "build"))
+        try:
+            import poisonalloc
+            _POISON["on"] = bool(poisonalloc.install())
+        except Exception:  # noqa: BLE001 - without the shim the poison clause is simply never triggered
+            _POISON["on"] = False
+    return _POISON["on"]
+
+
 def _run(task):
     os.environ.setdefault("PYTHONHASHSEED", "0")
+    install_poison()
     kind = task[0]
     if kind == "driver":
         _, name, seed, start, count, prop, kw = task
